@@ -717,6 +717,47 @@ def generator_built_exe(p: Project) -> None:
     p.expect = [('gb', 'all'), ('gb', 'meson-test-prereq')]
 
 
+@entry('unity-generated-spill', ['gcc', 'g++'], [{'unity': 'on', 'layout': 'mirror'}], {'layout': ['mirror'], 'unity': ['on'], 'default_library': DEFLIB},
+       'generate_target: unity_deps as order-only inputs of EVERY unity compile step (generate_unity_files / generate_single_compile)',
+       'unity build (unity_size=2) whose generated sources spill into the second unity file, and a C/C++ mix whose second unity file is the C++ one')
+def unity_generated_spill(p: Project) -> None:
+    p.extra_setup = ['-Dunity_size=2']
+    L = head(p, ['c', 'cpp'])
+    for i in (1, 2, 3):
+        L.append(f"g{i} = custom_target('ug{i}', input: 'ug{i}.c.in', output: 'ug{i}.c', {COPY})")
+        p.files[f'ug{i}.c.in'] = f'int ug{i}(void) {{ return {i}; }}\n'
+    L.append("spill = executable('spill', 'spill_main.c', g1, g2, g3)")
+    L.append("gx = custom_target('ugx', input: 'ugx.cpp.in', output: 'ugx.cpp', " + COPY + ")")
+    L.append("gc = custom_target('ugc', input: 'ugc.c.in', output: 'ugc.c', " + COPY + ")")
+    L.append("mixed = executable('mixed', 'mixed_main.cpp', gc, gx)")
+    L.append("test('spill', spill)")
+    L.append("test('mixed', mixed)")
+    p.files['spill_main.c'] = 'int ug1(void); int ug2(void); int ug3(void);\nint main(void) { return ug1() + ug2() + ug3() - 6; }\n'
+    p.files['ugx.cpp.in'] = 'extern "C" int ugx(void) { return 5; }\n'
+    p.files['ugc.c.in'] = 'int ugc(void) { return 4; }\n'
+    p.files['mixed_main.cpp'] = 'extern "C" int ugx(void); extern "C" int ugc(void);\nint main() { return ugx() + ugc() - 9; }\n'
+    p.files['meson.build'] = '\n'.join(L) + '\n'
+    p.expect = [('spill', 'all'), ('mixed', 'all'), ('spill', 'meson-test-prereq')]
+
+
+@entry('preprocess-depends-non-header', ['gcc'], [{'layout': 'mirror'}], {'layout': ['mirror'], 'buildtype': ['debug', 'release']},
+       'CompileTarget.get_generated_headers (depends: of compiler.preprocess) -> order-only inputs of the c_PREPROCESSOR statements',
+       'cc.preprocess(..., depends: X) where X writes a file without a header suffix (.inc) that the preprocessed source includes')
+def preprocess_depends_non_header(p: Project) -> None:
+    L = head(p, ['c'])
+    L.append("cc = meson.get_compiler('c')")
+    L.append(f"vals = custom_target('vals', input: 'values.inc.in', output: 'values.inc', {COPY})")
+    L.append(f"hdr = custom_target('hdr', input: 'names.h.in', output: 'names.h', {COPY})")
+    L.append("pp = cc.preprocess('table.c', 'names.c', output: '@PLAINNAME@.i', depends: [vals, hdr], include_directories: include_directories('.'))")
+    L.append("final = custom_target('final', input: pp, output: 'final.txt', command: [gen, '--read', '@INPUT0@', '--read', '@INPUT1@', '--copy', '@INPUT0@', '@OUTPUT@'], build_by_default: true)")
+    p.files['values.inc.in'] = '#define TABLE_VALUES 1, 2, 3\n'
+    p.files['names.h.in'] = '#define TABLE_NAME tbl\n'
+    p.files['table.c'] = '#include "values.inc"\nint table[] = { TABLE_VALUES };\n'
+    p.files['names.c'] = '#include "names.h"\nint TABLE_NAME;\n'
+    p.files['meson.build'] = '\n'.join(L) + '\n'
+    p.expect = [('final.txt', 'all')]
+
+
 @entry('ct-depfile-string-depends', ['gcc'], [{'layout': 'mirror'}], {'layout': LAYOUT},
        'generate_custom_target: depfile (CUSTOM_COMMAND_DEP), target.extra_depends -> get_paths_for_dep_outputs',
        'custom_target with depfile: whose depfile names a generated file; that file reaches the command only as a string path + depends:')
